@@ -386,7 +386,9 @@ def gen_refills(repo):
                         name = before[-1][1] if before else "<unknown>"
                     a = text.rfind("\n", 0, m.start()) + 1
                     b = text.find("\n", m.end())
-                    rows.append((rel, name, " ".join(text[a:b if b >= 0 else len(text)].split())))
+                    stmt = " ".join(text[a:b if b >= 0 else len(text)].split())
+                    stmt = re.sub(r"\b\d{2,}\b", "N", stmt)      # (a default value is not part of the rule; `1` and `0` are)
+                    rows.append((rel, name, stmt))
     rows = sorted(rows)
     q = lambda t: '"' + t.replace("\\", "\\\\").replace('"', '\\"') + '"'
     lean = "\n".join(["", "/-! every statement that writes eval_cost or the configured budget (props/c04.py: gen_refills) -/",
@@ -395,7 +397,10 @@ def gen_refills(repo):
     return lean, rows
 
 
-BASE_CONF = "MaxCallDepth 200\nStackSize 2000\n"
+# every limit the cases rely on is written into the config file (not left to the defaults of lib/rc/rc.cpp: the `Limits`
+# defaults of NV/C04/Spec.lean and the loop forms / local counts of the generator are the same numbers)
+BASE_CONF = ("MaxCallDepth 200\nStackSize 2000\nMaxEvaluationCost 1000000\nMaxArraySize 15000\nMaxBufferSize 4000000\n"
+             "MaxMappingSize 15000\nMaxStringLength 200000\nMaxLocalVariables 25\n")
 
 
 # ---------------------------------------------------------------------------
@@ -688,7 +693,10 @@ class C04(Prop):
             except Exception:
                 self.loop_info = {"backwardOps": []}
         backops = "".join('{"%s",%s},' % (o, o) for o in self.loop_info.get("backwardOps", []))
-        self.exe = E.compile_harness("c04", [os.path.join(E.VERIF, "harness/c04/c04.c")], extra=["-DC04_BACKOPS=" + backops])
+        # (the harness lowers end_of_stack with the formula of reset_interpreter: the slack is the regenerated one)
+        slack = (getattr(self, "site_consts", None) or {}).get("stackSlackSrc", 5)
+        self.exe = E.compile_harness("c04", [os.path.join(E.VERIF, "harness/c04/c04.c")],
+                                     extra=["-DC04_BACKOPS=" + backops, "-DC04_STACK_SLACK=%d" % slack])
         self.conf = E.make_mudlib(ctx.rundir, master="/c04/master.c", extra_conf=BASE_CONF)
         self.confs = {}
         base = open(self.conf).read()
@@ -704,6 +712,7 @@ class C04(Prop):
     def gen_extra(self, ctx, bdir):
         text, consts, report = gen_sites(E.REPO)
         self.site_report = report
+        self.site_consts = consts
         loop_text, self.loop_info = gen_loop(E.REPO)
         refill_text, self.refill_rows = gen_refills(E.REPO)
         return text + loop_text + refill_text
